@@ -36,7 +36,7 @@ from contextlib import contextmanager
 from .parameterized import (
     Parameterized, Parameter, ParameterizedFunction, ParamOverrides, String,
     Undefined, get_logger, instance_descriptor, _dt_types,
-    _int_types, _identity_hook
+    _int_types, _identity_hook, edit_constant
 )
 from ._utils import (
     ParamFutureWarning as _ParamFutureWarning,
@@ -399,10 +399,8 @@ class Time(Parameterized):
         if time_type and val is None:
             raise Exception("Please specify a value for the new time_type.")
         if time_type:
-            type_param = self.param.objects('existing').get('time_type')
-            type_param.constant = False
-            self.time_type = time_type
-            type_param.constant = True
+            with edit_constant(self):
+                self.time_type = time_type
         if val is not None:
             self._time = self.time_type(val)
 
